@@ -221,6 +221,7 @@ class Gen(object):
         open_ctx = []
         yielded = []
         spawned = []
+        extended = set()
         for k in range(1, nseg + 1):
             ops = []
             nops = r.randint(0, 4) if (p["p_ctx"] or p["p_sync"] or p["p_read"] or p["p_spawn"] or p["p_dirty"] or p["p_ival"] or p["p_cancelb"] or p["p_fail"]) else 0
@@ -298,9 +299,16 @@ class Gen(object):
                     segs.append(seg(ops, term("return")))
             else:
                 prev = [j + 1 for j, sg in enumerate(segs) if sg["term"]["k"] == "yield" and not sg["term"]["reuse"]
-                        and sg["term"]["s"]["g"] in ("Tup", "Lst", "Dct")]
+                        and sg["term"]["s"]["g"] in ("Tup", "Lst", "Dct") and (j + 1) not in extended]
                 if p["p_reuse"] and prev and r.random() < p["p_reuse"]:
-                    segs.append(seg(ops, term("yield", None, r.random() < p["p_catch"], reuse=r.choice(prev))))
+                    k0 = r.choice(prev)
+                    ext = None
+                    if segs[k0 - 1]["term"]["s"]["g"] == "Lst" and k0 not in extended and r.random() < 0.5:
+                        # append new futures to the list before yielding it again (that base is not re-yielded afterwards)
+                        ext = S("Lst", 0, [self.leaf(t, yielded) for _ in range(r.randint(1, 2))])
+                        yielded += [x["n"] for x in _leaves(ext) if x["g"] == "T"]
+                        extended.add(k0)
+                    segs.append(seg(ops, term("yield", ext, r.random() < p["p_catch"], reuse=k0)))
                     continue
                 s = self.struct(t, yielded, p["depth"])
                 if p["p_rep"]:
